@@ -125,13 +125,14 @@ Lemma source_tables :
    sc_sets_input_closed = [str "Session.closeInputStream"] /\
    sc_closesession_callers = map str ["Session.Close"; "Session.sendError"]%string) /\
   sc_serve_defer_calls = map str ["closeInputStream"; "Close"]%string /\
-  sc_setclosedeadline_locked = true /\
+  (sc_setclosedeadline_locked = true /\ sc_setclosedeadline_fresh_context = true /\
+   sc_setclosedeadline_cancels_previous = true /\ sc_setclosedeadline_zero_is_no_deadline = true) /\
   (sc_send_records_opening_element = true /\ sc_negotiator_records_ws = true /\
    sc_reader_ws_close_is_eof = true) /\
   sc_statelock_blocking_calls = [].
 Proof.
   split; [exact tbl_out_lockers|]. split.
   - destruct tbl_guards as (_ & A & B & C & D & E). destruct tbl_reader_and_deadline as [F _]. tauto.
-  - split; [exact tbl_setters|]. split; [exact tbl_serve_defer|]. split; [exact (proj2 tbl_reader_and_deadline)|].
+  - split; [exact tbl_setters|]. split; [exact tbl_serve_defer|]. split; [exact (conj (proj2 tbl_reader_and_deadline) tbl_setdeadline)|].
     destruct tbl_close_tags as (_ & _ & A). destruct tbl_ws_framing as [B C]. split; [tauto|exact tbl_statelock].
 Qed.
